@@ -68,11 +68,13 @@ func (m *Mutex) TryLock() bool {
 }
 
 func (m *Mutex) Unlock() {
-	if b := active.Load(); b != nil {
-		if m.Held.CompareAndSwap(1, 0) {
+	// Held is only ever set by a scheduler's grant; a goroutine that was granted the mutex and
+	// outlives the scheduler (execution torn down after a deadlock verdict) must not touch the real one
+	if m.Held.CompareAndSwap(1, 0) {
+		if b := active.Load(); b != nil {
 			b.s.AfterUnlock(m)
-			return
 		}
+		return
 	}
 	m.real.Unlock()
 }
